@@ -1,25 +1,50 @@
 (* C11 — muggle_array_list_get_index as re-translated from the C text on this
    run (gen/Params_C11.v, lib/leaftrans.py) equals the model's al_get_index on
    every representable list state and every int index other than INT_MIN.
+
+   The proof does not depend on the shape of the generated term: both sides
+   are unfolded down to comparisons, mod 2^k and linear arithmetic, every
+   conditional is split (in the goal and in the hypotheses the splitting
+   creates), and each leaf is closed by lia over the euclidean-division
+   equations.  Structure-only rewrites of the C function (guard clauses,
+   ternaries, hoisted locals, swapped branches with negated conditions) keep
+   proving; a change of the selected value or of an accepted range does not.
    (The translator renders the final cast to int as value-preserving; the
    model writes it as to_int; under the invariant the value is in range.) *)
 From MV Require Import Lib.Leaf C11.Model C11.ProofsLib C11.ProofsAL gen.Params_C11.
 From Coq Require Import ZifyBool.
 Local Open Scope Z_scope.
 
-Lemma wrapu64_small : forall z, 0 <= z < two64 -> wrapu 64 z = z.
-Proof. intros. unfold wrapu. change (2 ^ 64) with two64. now apply Z.mod_small. Qed.
+Ltac leaf_pow2_consts :=
+  repeat match goal with
+         | |- context [2 ^ ?n] => let v := eval vm_compute in (2 ^ n) in change (2 ^ n) with v
+         end.
+
+Ltac leaf_split_ifs :=
+  repeat match goal with
+         | |- context [if ?c then _ else _] => destruct c eqn:?
+         | H : context [if ?c then _ else _] |- _ => destruct c eqn:?
+         end.
+
+Ltac leaf_close :=
+  try reflexivity;
+  try lia;
+  try (Z.div_mod_to_equations; lia);
+  try (Z.quot_rem_to_equations; Z.div_mod_to_equations; lia).
+
+Ltac leaf_decide :=
+  cbv zeta;
+  unfold wrapu, b2z, z2b, cdiv, crem, u64, u32, to_int, two31, two32, two64 in *;
+  cbv zeta;
+  leaf_pow2_consts;
+  leaf_split_ifs;
+  leaf_close.
 
 Lemma gen_get_index_matches_model : forall s index, al_inv s -> int_ok index ->
   gen_muggle_array_list_get_index (asize s) index = al_get_index s index.
 Proof.
-  intros s index (H1 & H2 & H3) Hi. unfold int_ok in Hi.
-  unfold gen_muggle_array_list_get_index, al_get_index. cbv zeta.
-  assert (Hu : forall z, 0 <= z < two31 -> u64 z = z) by (intros; apply u64_small; unfold two31, two64 in *; lia).
-  assert (Hw : forall z, 0 <= z < two31 -> wrapu 64 z = z) by (intros; apply wrapu64_small; unfold two31, two64 in *; lia).
-  destruct (index >=? 0) eqn:E.
-  - rewrite (Hw index), (Hu index) by lia. reflexivity.
-  - rewrite (Hw (- index)), (Hu (- index)) by lia.
-    destruct (- index >? asize s) eqn:E2; [reflexivity|].
-    rewrite Hw by lia. rewrite to_int_small by lia. reflexivity.
+  intros s index (H1 & H2 & _) Hi. unfold int_ok in Hi.
+  unfold gen_muggle_array_list_get_index, al_get_index.
+  generalize dependent (asize s). generalize dependent (acap s). intros cap Hcap sz Hsz.
+  leaf_decide.
 Qed.
